@@ -110,7 +110,7 @@ R.implements(f'{PRK}.wait', f'{RN}.wait#yield', self_type='Obj[ProcessRunner]',
                                'A-proc: a future that finished without exception carries what _subprocess_func returned in the child for the task the future was created for, computed from the results handed over at submit/start')]},
     cand_locals=('done',),
     frame=['self.future_to_task', 'self.results_map', 'self.executor._pending_future_to_thunk',
-           'self.executor._running_id_to_future_and_process', 'Fut._state', 'Fut._ex', 'Fut._result', '@STARTED', '@QEPOCH', '@DELIVERED'],
+           'self.executor._running_id_to_future_and_process', 'Fut._state', 'Fut._ex', 'Fut._result', '@STARTED', '@QEPOCH', '@DELIVERED', 'Queue.backlog'],
     candidates=[
         "INV(self.executor)",
         "forall('Fut', lambda f: implies(f in done, f in old(self.future_to_task)))",
